@@ -32,6 +32,16 @@ os.makedirs('/tmp/seeded-out', exist_ok=True)
 for name in sys.argv[1:]:
     pid = name[:3]; p = props[pid]
     extra = ""
+    prev = '/verif/seeded'
+    import glob
+    done = []
+    for d in sorted(glob.glob('/verif/seeded/%s*' % pid)):
+        try:
+            done.append(json.load(open(d + '/meta.json')).get('summary', '')[:300])
+        except Exception:
+            pass
     txt = common.format(wt='/tmp/wt/' + name, name=name, id=pid, title=p['title'], statement=p['statement'], quant=p['quantifier']['text'])
+    if done:
+        txt += "\nDIVERSITY NOTE: defects already produced for this property by other engineers (do NOT repeat these; pick a different function and a different mechanism, ideally one that needs two cooperating sites or a multi-step input to manifest):\n" + "\n".join("  - " + d for d in done) + "\n"
     open('/tmp/seeded-out/prompt_%s.txt' % name, 'w').write(txt)
     print(name, len(txt))
